@@ -13,7 +13,8 @@ EXPLANATION = (
     "never fatal: try_send only (C04.R3), the Datagram row of the reaction table (Full => no error), and every "
     "Datagram with a valid header decodes (C09.R2 on the Datagram arm).")
 EXPLANATION_ADDED = 'R2 also requires that no test of the frame id can bypass the opcode dispatch (any flow id is delivered); (R4) the datagram queue is sized by datagram_buffer_size.'
-EXPLANATION = EXPLANATION + " Added while testing against seeded changes: " + EXPLANATION_ADDED
+EXPLANATION_ADDED2 = ' R1 also requires that every Ok(()) of the sender is dominated by the queue send.'
+EXPLANATION = EXPLANATION + " Added while testing against seeded changes: " + EXPLANATION_ADDED + EXPLANATION_ADDED2
 ASSUMPTIONS = ["single FIFO (S1) + bounded tokio queue give order and at-most-once"]
 NOT_DECIDED = "loss only when the buffer is full (needs counting at run time)"
 DG = "penguin_mux::Datagram"
